@@ -33,7 +33,7 @@ type LcS = <adlt::lifecycle::LcsRType as HasherOf>::S;
 type LcsW = evmap::WriteHandle<LifecycleId, LifecycleItem, (), LcS>;
 type LcsR = adlt::lifecycle::LcsRType;
 
-const RECV_TIMEOUT: Duration = Duration::from_secs(300); // hang detection only
+const RECV_TIMEOUT: Duration = Duration::from_secs(120); // hang detection only
 const STALL_BOUND: Duration = Duration::from_secs(120); // the same for the polling consumer styles
 const JOIN_BOUND: Duration = Duration::from_secs(120); // "every stage terminates": generous, the machine may be loaded
 
@@ -435,7 +435,8 @@ fn run_pipeline(spec: &PipeSpec, msgs: &[DltMessage], caps: &[usize], pacing: &P
     let want: Vec<String> = spec.stages().iter().map(|s| s.to_string()).collect();
     let mut joined: Vec<String> = Vec::new();
     let mut panics = Vec::new();
-    let deadline = Instant::now() + JOIN_BOUND;
+    // (after a stall the pipeline is known to hang: do not wait the full bound for its threads again)
+    let deadline = Instant::now() + if matches!(ended, Ended::RecvTimeout) { Duration::from_secs(5) } else { JOIN_BOUND };
     while joined.len() < want.len() {
         let left = deadline.saturating_duration_since(Instant::now());
         match done_rx.recv_timeout(left) {
@@ -675,9 +676,20 @@ fn do_case(t: &mut Trace, st: &mut Stats, case: u64, spec: &PipeSpec, msgs: &[Dl
     let big = vec![msgs.len() + 8; spec.nchan()];
     let r = run_pipeline(spec, msgs, &big, &Pacing::default());
     if !r.panics.is_empty() || !r.timeouts.is_empty() || !matches!(r.ended, Ended::Eos) || r.table.is_none() {
+        if !r.timeouts.is_empty() || matches!(r.ended, Ended::RecvTimeout) {
+            // the pipeline hangs even with channels that never fill: stages that do not terminate / deliver nothing while the
+            // consumer is alive - recorded as a stalled case (no contract action matches), the shard stops here
+            t.ev(json!({"ev":"reset","case":case,"hdr":{"sorted":spec.sort,"stages":spec.stages(),"observers":[],"ref":[],"reftable":[],
+                "caps":caps,"drop_at":-1,"n_in":msgs.len(),"c_style":0,"c_poll_us":0,"max_p_stall_ms":0,"max_c_stall_ms":0,"late_ecu":false,
+                "spec":format!("{:?}", spec),"pacing":"reference run","info":info}}));
+            t.ev(json!({"ev":"stalled","after":r.recv.len(),"style":0,"in":"reference run (channels that never fill)","not_joined":r.timeouts}));
+            t.ev(json!({"ev":"end"}));
+            st.cases += 1;
+            return false;
+        }
         // the reference itself failed (e.g. a detector panic): another property's business, no C13 statement possible
         st.skipped_ref += 1;
-        return r.timeouts.is_empty();
+        return true;
     }
     let mut pacing = pacing.clone();
     if let Some((da, nout)) = scaled_drop {
@@ -950,6 +962,13 @@ fn convert_case(t: &mut Trace, case: u64, adlt_bin: &str, work: &str, shape: &st
     let (rseq, rbag) = seq_bag(&r.file_hashes);
     t.ev(json!({"ev":"reset","case":case,"hdr":{"kind":"convert","shape":shape,"sorted":spec.sort,"n_in":parsed.len(),
         "ref_count":r.file_hashes.len(),"ref_seq":rseq,"ref_bag":rbag,"ref_ok":matches!(r.ended, Ended::Eos) && r.panics.is_empty()}}));
+    if !r.timeouts.is_empty() || matches!(r.ended, Ended::RecvTimeout) {
+        // the library stages hang on this log even with channels that never fill: recorded as a stalled case; the binary is not run
+        t.ev(json!({"ev":"stalled","in":"reference run of the convert case","not_joined":r.timeouts}));
+        t.ev(json!({"ev":"end"}));
+        let _ = std::fs::remove_dir_all(&dir);
+        return;
+    }
     let out = if shape == "devfull" { "/dev/full".to_string() } else { format!("{}/out.dlt", dir) };
     let mut args: Vec<String> = vec!["convert".into()];
     if spec.sort {
@@ -984,7 +1003,7 @@ fn convert_case(t: &mut Trace, case: u64, adlt_bin: &str, work: &str, shape: &st
         match child.try_wait() {
             Ok(Some(st)) => break st.code().unwrap_or(-1),
             _ => {
-                if t0.elapsed() > Duration::from_secs(120) {
+                if t0.elapsed() > Duration::from_secs(90) {
                     let _ = child.kill();
                     let _ = child.wait();
                     timed_out = true;
@@ -1064,8 +1083,30 @@ fn remote_drop_main(a: &Args) {
     let cshapes: Vec<String> = a.str("--convert", "").split(',').filter(|s| !s.is_empty()).map(|s| s.to_string()).collect();
     let n_conv = a.num("--convert-n", 30_000) as usize;
     let seed = a.num("--seed", 1);
-    for (i, sh) in cshapes.iter().enumerate() {
-        convert_case(&mut t, first + 100 + i as u64, &adlt_bin, &work, sh, n_conv, seed);
+    // independent processes / pipelines: in parallel as well (a tree that hangs everywhere costs one bound, not one per case)
+    let cresults: Vec<Vec<Value>> = std::thread::scope(|sc| {
+        let hs: Vec<_> = cshapes
+            .iter()
+            .enumerate()
+            .map(|(i, sh)| {
+                let (adlt_bin, work) = (adlt_bin.clone(), work.clone());
+                sc.spawn(move || {
+                    let tmp = format!("{}/convert-case-{}.ndjson", work, i);
+                    let mut tt = Trace::create(&tmp);
+                    convert_case(&mut tt, first + 100 + i as u64, &adlt_bin, &work, sh, n_conv, seed);
+                    tt.flush();
+                    let v = read_ndjson(&tmp);
+                    let _ = std::fs::remove_file(&tmp);
+                    v
+                })
+            })
+            .collect();
+        hs.into_iter().map(|h| h.join().unwrap_or_default()).collect()
+    });
+    for evs in cresults {
+        for e in evs {
+            t.ev(e);
+        }
     }
     t.flush();
     let _ = std::fs::remove_file(&huge);
